@@ -30,7 +30,7 @@ var roleCode = map[string]int64{"CLPDEX": 1, "PMTPREWARDS": 2, "TOKENREGISTRY": 
 var roleType = map[string]admintypes.AdminType{"CLPDEX": admintypes.AdminType_CLPDEX, "PMTPREWARDS": admintypes.AdminType_PMTPREWARDS,
 	"TOKENREGISTRY": admintypes.AdminType_TOKENREGISTRY, "ETHBRIDGE": admintypes.AdminType_ETHBRIDGE, "ADMIN": admintypes.AdminType_ADMIN, "MARGIN": admintypes.AdminType_MARGIN}
 
-var permissionTexts = []string{"not enough permissions", "unauthorised signer", "permission denied", "only admin account can", "not an admin account",
+var permissionTexts = []string{"enough permissions", "unauthorised signer", "permission denied", "only admin account can", "not an admin account",
 	"does not have permission", "signer not authorised", "not admin account", "unauthorised"}
 
 func refusedForPermission(log string) bool {
@@ -238,10 +238,13 @@ func C08(c Ctx) *report.Report {
 				continue
 			}
 			res := wa.Tx(sa, msg)
-			noop := banktypes.NewMsgSend(sb.Addr, sb.Addr, sdk.NewCoins(sdk.NewCoin("ceth", sdk.NewInt(1))))
+			// the reference transaction: a bank send that fails in the message (insufficient funds), so that only the
+			// ante handler's writes (fee, sequence) reach the state.  (A successful self-send is not a no-op for the
+			// IAVL commitment: rewriting an equal value bumps the node version and changes the hash.)
+			noop := banktypes.NewMsgSend(sb.Addr, wb.nobody.Addr, sdk.NewCoins(sdk.NewCoin("cusdc", sdk.NewIntFromBigInt(chain.E(40)))))
 			resB := wb.Tx(sb, noop)
-			if resB.Code != 0 {
-				panic("no-op failed: " + resB.Log)
+			if resB.Code == 0 {
+				panic("reference transaction unexpectedly succeeded")
 			}
 			ha, hb := wa.commitHash(), wb.commitHash()
 			unchanged := bytes.Equal(ha, hb)
@@ -340,7 +343,7 @@ func C08(c Ctx) *report.Report {
 	rep.Evaluations = id
 	rep.DistinctNontrivial = len(cases)
 	rep.Distribution["exhaustive_matrix"] = fmt.Sprintf("%d privileged messages x %d signer kinds", len(cases)/len(signerKinds), len(signerKinds))
-	rep.Rule = "exhaustive matrix on the real app: each of the 30 privileged Msg service methods (list regenerated from the source) with a well-formed payload x 10 signer kinds (no role, each of the six x/admin roles, oracle admin, clp whitelist, every role except the required one), each on a pair of identical fresh chains: the privileged message on one, a no-op self-send by the same signer on the other, app hashes compared after commit; plus random add/remove role histories probing the very next message"
+	rep.Rule = "exhaustive matrix on the real app: each of the 30 privileged Msg service methods (list regenerated from the source) with a well-formed payload x 10 signer kinds (no role, each of the six x/admin roles, oracle admin, clp whitelist, every role except the required one), each on a pair of identical fresh chains: the privileged message on one, a bank send that fails for lack of funds (fee and sequence only) by the same signer on the other, app hashes compared after commit; plus random add/remove role histories probing the very next message"
 	writeCases(c, rep, "cases_C08.v", "From Sif Require Import Check.C08.\n",
 		fmt.Sprintf("Definition cases : list (list int) := %s.\nDefinition M := Eval vm_compute in (c08_mismatches cases).\n", coqList(cases)))
 	return rep
